@@ -579,6 +579,23 @@ def run_verus_ob(build, ob):
         res["verified"] = vr.get("verified", 0)
         if vr.get("success") and vr.get("errors", 0) == 0 and vr.get("verified", 0) > 0:
             res["status"] = "discharged"
+            # vacuity guard: with `assert(false)` at the start of every extracted function that has a
+            # precondition, Verus must report one failed assertion per probe
+            try:
+                ptext, prules = extract.assemble(build.repo, ob["spec"], probe=True)
+                nprobe = prules.get("_probes", 0)
+                if nprobe:
+                    pp = fp[:-3] + ".probe.rs"
+                    with open(pp, "w") as fh:
+                        fh.write(ptext)
+                    rc2, out2, dt2, to2 = run_cmd(["verus", pp, "--triggers-mode", "silent", "--multiple-errors", "200",
+                                                   "--rlimit", str(ob.get("rlimit", 30))], vdir, build.env(), ob.get("timeout", 300))
+                    nfail = len(re.findall(r"error: assertion failed", out2))
+                    res["vacuity_probes"] = {"probes": nprobe, "failed_as_they_must": nfail}
+                    if nfail < nprobe:
+                        res["status"], res["reason"] = "undecided", "vacuity guard: %d of %d precondition probes verified `false`" % (nprobe - nfail, nprobe)
+            except Exception as e:  # noqa
+                res["vacuity_probes"] = {"error": str(e)}
         elif vr.get("errors", 0) > 0:
             errs = re.findall(r"error: ([^\n]*)\n\s*--> [^\n]*:(\d+):\d+", out)
             kinds = [e[0] for e in errs]
